@@ -660,6 +660,16 @@ int main(int argc, char** argv)
                      else if(kind == "rhs") s.changeRhsRational(idx, v);
                      else if(kind == "lo") s.changeLowerRational(idx, v);
                      else if(kind == "up") s.changeUpperRational(idx, v);
+                     else if(kind == "rmcol") s.removeColRational(idx);
+                     else if(kind == "qbind")
+                     {
+                        // query the rational basis inverse between two solves (factorizes if necessary)
+                        DataArray<int> qb(s.numRowsRational());
+                        edited = false;
+
+                        if(s.hasBasis())
+                           (void) s.getBasisIndRational(qb);
+                     }
                      else ok = false;
                   }
                }
